@@ -19,7 +19,8 @@ def main():
         for v in ctx.violations:
             key = (v['rule'], v['file'], v['function'], v['construct_key'])
             g = groups.setdefault(key, {'rule': v['rule'], 'file': v['file'], 'function': v['function'], 'construct_key': v['construct_key'],
-                                        'properties': [], 'what_fails': v['what_fails'], 'witness': (v.get('facts') or {}).get('witness')})
+                                        'properties': [], 'what_fails': v['what_fails'], 'witness': (v.get('facts') or {}).get('witness'),
+                                        'failset': (v.get('facts') or {}).get('failset')})
             if pid not in g['properties']:
                 g['properties'].append(pid)
     json.dump(list(groups.values()), sys.stdout, indent=1, default=str)
